@@ -573,7 +573,15 @@ func c02Exec(cs c02Case) (out core.Outcome, key string, uniform bool) {
 					delete(core.KnownActive, f)
 				}
 				if id != "" {
-					return core.Outcome{Key: "known-layout:" + id}, "x", true
+					listed := true
+					for _, part := range strings.Split(id, "+") {
+						if !core.KnownInput("C02", part, w) {
+							listed = false
+						}
+					}
+					if listed {
+						return core.Outcome{Key: "known-layout:" + id}, "x", true
+					}
 				}
 			}
 			return fail("edited-print-differs:"+k.Name+":"+c01Class(w, got), "file %d: print of the edited tree differs from gofmt of the text whose chunks were edited the same way\n%s", i, diffDesc(w, got))
